@@ -38,10 +38,10 @@ def volmodel_json(kind, M, args):
     return {"type": "statedep", "avg": f2b(args["avg"]), "noise": f2b(args["noise"]), "growth": dump_term(term)}
 
 
-def corr(ctx, spec, T, seeds, kind, args, vol0, safe=False, sim="volume", t0=0.0):
-    ctx.begin_case({"spec": spec, "grid": [float(t) for t in T], "seeds": seeds, "volume": kind, "args": args, "vol0": vol0, "safe": safe, "simulator": sim, "t0": t0})
+def corr(ctx, spec, T, seeds, kind, args, vol0, safe=False, sim="volume", t0=0.0, dtmul=1):
+    ctx.begin_case({"spec": spec, "grid": [float(t) for t in T], "seeds": seeds, "volume": kind, "args": args, "vol0": vol0, "safe": safe, "simulator": sim, "t0": t0, "dtmul": dtmul})
     M = build_model(spec)
-    dt = float(T[1] - T[0])
+    dt = float(T[1] - T[0]) * dtmul        # dtmul > 1: volume ticks coarser than the requested grid
     x0 = np.array(M.get_species_array(), dtype=float)
     vj = volmodel_json(kind, M, args)
     jobs = [sim_job(M, sim, T, s, dt, safe=safe, fuel=simcorr.FUEL, spec=spec, vol0=vol0, volmodel=vj, t0=t0) for s in seeds]
@@ -59,7 +59,7 @@ def corr(ctx, spec, T, seeds, kind, args, vol0, safe=False, sim="volume", t0=0.0
         d = simcorr.compare(r, a, sim)
         if d is not None:
             ctx.broke("corr_C11_volume_trajectory_trace_flag_bit_exact", {"spec": spec, "grid": [float(t) for t in T], "seed": s, "volume": kind,
-                                                                          "args": args, "vol0": vol0, "safe": safe, "simulator": sim, "t0": t0, "difference": d})
+                                                                          "args": args, "vol0": vol0, "safe": safe, "simulator": sim, "t0": t0, "dtmul": dtmul, "difference": d})
         growth_oracle(ctx, spec, T, s, kind, args, vol0, r, t0)
         ctx.nontriv((kind, bool(r["divided"]), len(r["rows"]) < len(T), bool(np.any(np.diff(r["rows"], axis=0) != 0)), s % 4,
                      str(sorted(x["prop"]["type"] for x in spec["reactions"]))))
@@ -259,7 +259,7 @@ def run(ctx):
         scaling_oracle(ctx, spec, rng.choice([0.25, 0.5, 2.0, 4.5]), rng)
         c = i % 4
         if c == 0:
-            corr(ctx, spec, T, seeds, "const", {}, vol0, safe)
+            corr(ctx, spec, T, seeds, "const", {}, vol0, safe, dtmul=rng.choice([1, 1, 4]))
         elif c in (1, 2):
             cyc = rng.choice([1.0, 3.0, 10.0, 50.0])
             args = {"cycle": cyc, "avg": vol0 * rng.choice([1.2, 2.0, 8.0]), "noise": 0.0 if c == 1 else rng.choice([0.05, 0.2])}
@@ -282,7 +282,7 @@ def replay(ctx, obj):
         import common
         scaling_oracle(ctx, rep["spec"], rep["V"], common.SplitMix64(1))
     elif "grid" in rep:
-        corr(ctx, rep["spec"], np.array(rep["grid"]), [rep["seed"]], rep["volume"], rep["args"], rep["vol0"], rep.get("safe", False), sim=rep.get("simulator", "volume"), t0=rep.get("t0", 0.0))
+        corr(ctx, rep["spec"], np.array(rep["grid"]), [rep["seed"]], rep["volume"], rep["args"], rep["vol0"], rep.get("safe", False), sim=rep.get("simulator", "volume"), t0=rep.get("t0", 0.0), dtmul=rep.get("dtmul", 1))
     else:
         scaled_cme(ctx, rep["spec"], rep["V"], rep.get("nruns", 2500), rep.get("seed0", 1))
 
